@@ -5,7 +5,7 @@ set_option linter.unusedSimpArgs false
 -/
 namespace Verif.Proofs.Num
 open Verif.Model.Num
-open Verif.Spec.Num (parse Parsed isNumber isDecimal numVal stripZeros leadExp WithinHalfUnit)
+open Verif.Spec.Num (parse Parsed isNumber isDecimal numVal stripZeros leadExp WithinHalfUnit WithinHalfUnitDec)
 
 theorem stripZeros_eq (l : List Char) : stripZeros l = dropZeros l := by
   unfold stripZeros
@@ -24,6 +24,14 @@ theorem within_refl (s : List Char) (p : Int) (v : Rat) : WithinHalfUnit s p v v
   · rfl
   · rename_i L _
     have := ten_zpow_nonneg (L - p + 1)
+    constructor <;> grind
+
+theorem withinDec_refl (s : List Char) (p : Int) (v : Rat) : WithinHalfUnitDec s p v v := by
+  unfold WithinHalfUnitDec
+  split
+  · rfl
+  · rename_i L _
+    have := ten_zpow_nonneg (min (L - p + 1) 0)
     constructor <;> grind
 
 /-- trailing-zero trimming does not change the number of leading zeros -/
@@ -171,10 +179,10 @@ theorem numVal_zero : numVal ['0'] = some 0 := by
   exact this
 
 theorem decimal_round_lex (l : Lex) (hwf : l.WF) (hex : l.ex = none) (p : Int) (hp : 0 < p) :
-    ∃ w, numVal (decimal l.str p) = some w ∧ WithinHalfUnit l.str p l.val w := by
+    ∃ w, numVal (decimal l.str p) = some w ∧ WithinHalfUnitDec l.str p l.val w := by
   unfold decimal
   split
-  · exact ⟨l.val, numVal_str l hwf, within_refl _ _ _⟩
+  · exact ⟨l.val, numVal_str l hwf, withinDec_refl _ _ _⟩
   · obtain ⟨hs1, hs2, hs3⟩ := str_sign_facts l hwf
     simp only [hs1, hs2, hs3]
     have hexp : l.exPart = [] := by simp [Lex.exPart, hex]
@@ -189,7 +197,7 @@ theorem decimal_round_lex (l : Lex) (hwf : l.WF) (hex : l.ex = none) (p : Int) (
       have : l.val = 0 := by
         rw [hval, natOf_append, natOf_of_dropZeros_nil hz1, natOf_of_dropTrail_nil hz2]
         simp [dval_zero]
-      rw [this]; exact within_refl _ _ _
+      rw [this]; exact withinDec_refl _ _ _
     · rw [ho]
       have hrw := rndD_wf hm p
       generalize hr : rndD p (dropZeros l.ip) (dropTrail '0' l.fp) = r at hrw
@@ -197,6 +205,7 @@ theorem decimal_round_lex (l : Lex) (hwf : l.WF) (hex : l.ex = none) (p : Int) (
       simp only [] at hrw ⊢
       have hol := outLex_plain l.sg.neg r1 r2 (!r2.isEmpty) hrw.dip hrw.dfp
         (by intro h; cases r2 with | nil => rfl | cons _ _ => simp at h) hrw.nonempty
+        (by intro h; cases r2 with | nil => simp at h | cons _ _ => simp) hrw.lead
       have hstr : (if (!r2.isEmpty) = true then '.' :: r2 else []) = (if r2.isEmpty = true then [] else '.' :: r2) := by
         cases r2 <;> simp
       rw [hstr] at hol
@@ -215,7 +224,7 @@ theorem decimal_round_lex (l : Lex) (hwf : l.WF) (hex : l.ex = none) (p : Int) (
         · have hb := roundDAt_bound l.sg.neg (dropZeros l.ip) (dropTrail '0' l.fp) k hm.dip hm.dfp hkl
           rw [hr] at hb
           simp only [] at hb
-          unfold WithinHalfUnit
+          unfold WithinHalfUnitDec
           rw [leadExp_decimal l hwf hex hm]
           simp only []
           have hL : (if (dropZeros l.ip).isEmpty then
@@ -229,6 +238,8 @@ theorem decimal_round_lex (l : Lex) (hwf : l.WF) (hex : l.ex = none) (p : Int) (
               simp only [List.isEmpty_cons, Bool.false_eq_true, if_false, List.length_cons] at hc ⊢
               omega
           rw [hL]
+          have hmin : min (-(k : Int)) 0 = -(k : Int) := by omega
+          rw [hmin]
           simp only [Int.zero_sub]
           exact hb
         · have : roundDAt (dropZeros l.ip) (dropTrail '0' l.fp) k = (dropZeros l.ip, dropTrail '0' l.fp) := by
@@ -236,9 +247,9 @@ theorem decimal_round_lex (l : Lex) (hwf : l.WF) (hex : l.ex = none) (p : Int) (
           rw [this] at hr
           injection hr with e1 e2
           subst e1 e2
-          exact within_refl _ _ _
+          exact withinDec_refl _ _ _
       · injection hr with e1 e2
         subst e1 e2
-        exact within_refl _ _ _
+        exact withinDec_refl _ _ _
 
 end Verif.Proofs.Num
